@@ -29,7 +29,10 @@ RULE = (
     "representative and on a hand-picked member, the %-formatting filters on every hand-picked percent string in the message "
     "and in the plural position; stream percent: every message over the fragments %, %%, (you)s, (x)d, space, d, ! up to 4 (5) "
     "fragments through t, gettext, pgettext, ngettext/npgettext plural and the translate tag (exhaustive; all run lengths of "
-    "percent signs in front of text, placeholders, non-conversion characters and the end of the string); stream sites: tag-level holes (output, range bounds, for/tablerow options, "
+    "percent signs in front of text, placeholders, non-conversion characters and the end of the string); stream chain: random "
+    "chains of 2-3 registered filters with 0-2 arguments per link, rendered as one assign, against runChain (result class of a "
+    "link = any class of resultCls); a leak in a cell outside the known-leak tables of Model/C02Known.lean gets a cell-specific "
+    "signature (filter|left|args), so a new cell leaking at a known location is a concrete violation; stream sites: tag-level holes (output, range bounds, for/tablerow options, "
     "contains, comparisons, subscripts, case/when, cycle, include/render, with, macro, translate, ternary) x class x "
     "STRICT/WARN/LAX; stream handlers: every exception class of the generated hierarchy raised from inside _parse and from "
     "inside a filter, through from_string / the render loop; stream render: shared generator programs under "
@@ -52,7 +55,7 @@ ASSUMPTIONS = [
 ]
 MANIFEST = {
     "technique": "Lean 4 proof by kernel evaluation over a finite value-class lattice x generated handler tables, lifted to all argument lists by a sequencing lemma; translator-generated exception hierarchy/catch tuples/filter registry; exhaustive class-grid correspondence against the real filters",
-    "text": "escapes_are_liquid_partial: for every registered filter, every left class and every list of argument classes (any length), every outcome the exception-flow model allows is success or a LiquidError, except the listed known-leak steps; each known leak has a kernel-decided counterexample theorem and a replayed witness. sites_contained_partial does the same for tag-level sites, from_string_contains and render_loop_adds_nothing for the two handlers everything passes through. The handler tables, hierarchy and decorators are regenerated from the source on every run, so widening or narrowing a catch tuple changes the theorem the kernel checks.",
+    "text": "chain_contained_partial (chains of filters of any length, by induction), sites_contained_partial over 57 tag-level sites incl. keyword arguments; escapes_are_liquid_partial: for every registered filter, every left class and every list of argument classes (any length), every outcome the exception-flow model allows is success or a LiquidError, except the listed known-leak steps; each known leak has a kernel-decided counterexample theorem and a replayed witness. sites_contained_partial does the same for tag-level sites, from_string_contains and render_loop_adds_nothing for the two handlers everything passes through. The handler tables, hierarchy and decorators are regenerated from the source on every run, so widening or narrowing a catch tuple changes the theorem the kernel checks.",
     "note": "Trusted: Lean kernel, the emitter, the class abstraction of CPython/babel primitives (measured by stream prim), the hand transcription of straight-line code (measured by the exhaustive filter grid). Partial: keyword arguments, custom drops, runtime stack/memory exhaustion.",
 }
 
@@ -141,19 +144,48 @@ def names():
 
 
 class ModelStream(Stream):
-    """Membership correspondence: the driver echoes the observation when the model allows it."""
+    """Membership correspondence: the driver echoes the observation when the model allows it, and says whether the cell
+    is one of the known-leak cells of Model/C02Known.lean.  A leak in a known cell carries the root-cause signature
+    (location); a leak in any other cell carries the cell too, so a *new* cell leaking at an old location is a distinct,
+    concrete violation that no listed finding can hide."""
+
+    def __init__(self):
+        self._known: dict = {}
 
     def canon_model(self, case, mobs):
         if isinstance(mobs, dict) and "verdict" in mobs:
+            if "known" in mobs:
+                self.__dict__.setdefault("_known", {})[json.dumps(case, sort_keys=True)] = bool(mobs["known"])
             return mobs["verdict"] if mobs["verdict"] != "NOT-ALLOWED" else {"model_allows": mobs["allowed"]}
         return mobs
 
     def compare_view(self, case, obs):
         return obs["out"]
 
+    def cell(self, case):
+        return None
+
+    def cell_known(self, case, obs) -> bool:
+        cache = self.__dict__.setdefault("_known", {})
+        key = json.dumps(case, sort_keys=True)
+        if key not in cache:
+            line = self.line_obs(case, obs)
+            if line is None:
+                cache[key] = True  # no model for this case: location-based signature only
+            else:
+                from ..lean import Driver
+
+                ans = Driver().batch([line])[0]
+                cache[key] = bool(ans.get("known", True)) if isinstance(ans, dict) else True
+        return cache[key]
+
     def oracle(self, case, obs):
         if obs["out"].startswith("leak:"):
-            return (signature(obs), f"{obs['out'][5:]} reached the caller")
+            sig = signature(obs)
+            c = self.cell(case)
+            if c is not None and not self.cell_known(case, obs):
+                sig = f"{obs['out'][5:]}@{obs.get('origin', '?').replace('_async', '')}|cell:{c}"
+            return (sig, f"{obs['out'][5:]} reached the caller")
         return None
 
     def nontrivial(self, case, obs):
@@ -348,7 +380,11 @@ class FilterStream(ModelStream):
     parallel = True
 
     def __init__(self):
+        super().__init__()
         self.exhaustive = False
+
+    def cell(self, case):
+        return f"{case['f']}|{case['l']}|{','.join(case['a'])}"
 
     def cases(self, ctx):
         nm = names()
@@ -366,13 +402,13 @@ class FilterStream(ModelStream):
             for l in classes:
                 for k in range(len(fixed_members(l))):
                     out.append({"f": f, "l": l, "a": [], "k": k})
-            # one argument: the whole grid (thorough) / every (left, arg) pair with probability 22 % (quick)
+            # one argument: the whole grid (thorough) / every (left, arg) pair with probability 18 % (quick)
             full1 = mx >= 1
             for l in classes:
                 for a in classes:
                     if not ok(f, [a]):
                         continue
-                    if thorough and full1 or (full1 and rng.chance(22)) or (not full1 and rng.chance(2)):
+                    if thorough and full1 or (full1 and rng.chance(18)) or (not full1 and rng.chance(2)):
                         out.append({"f": f, "l": l, "a": [a], "k": 0})
                         if full1 and (thorough or rng.chance(25)):  # the same cell on hand-picked members
                             out.append({"f": f, "l": l, "a": [a], "k": rng.range(1, 20)})
@@ -468,6 +504,9 @@ class PercentStream(ModelStream):
     parallel = True
     exhaustive = True
 
+    def cell(self, case):
+        return f"{case['tpl']}|{pct_class(case['msg'])}"
+
     def cases(self, ctx):
         msgs = sorted({"".join(p) for n in range(1, ctx.scale(4, 5) + 1) for p in itertools.product(PCT_FRAGMENTS, repeat=n)}
                       | {"100% sure", "100%% sure", "100%%% sure", "100%%%", "%%%%%%%", "%(you)s%%%%%"})
@@ -510,6 +549,75 @@ class PercentStream(ModelStream):
         return [case["tpl"], obs["out"].split(":")[0], "maxrun" + str(min(max(runs, default=0), 5))]
 
 
+# ---- stream chain -------------------------------------------------------------------------------------------
+class ChainStream(ModelStream):
+    """`l | f1: … | f2: … (| f3: …)`: the real chain against `runChain` (the result of a link is any class of
+    `resultCls f`)."""
+
+    name = "chain"
+    parallel = True
+
+    def cell(self, case):
+        return case["l"] + "".join(f"|{f}:{','.join(a)}" for f, a in case["links"])
+
+    def cases(self, ctx):
+        nm = names()
+        # str_exp is left out: concatenating digits to "1e999" gives an exponent beyond Decimal's Emax, a string outside
+        # every class of the lattice (decimal.Overflow from babel / sum: recorded as known findings, not modelled)
+        classes = [c for c in nm["classes"] if c not in ("str_repr", "str_exp")]
+        rng = ctx.rng_for("chain")
+        filters = nm["filters"]
+        out = []
+        for i in range(ctx.scale(6000, 60000)):
+            links = []
+            for _ in range(rng.choice([2, 2, 2, 3])):
+                f, mn, mx = rng.choice(filters)
+                n = rng.range(mn, min(max(mx, mn), 2)) if rng.chance(85) else rng.range(0, 3)
+                args = [rng.choice(classes) for _ in range(n)]
+                if any((f, j, a) in RESOURCE_UNSAFE for j, a in enumerate(args)):
+                    args = []
+                links.append([f, args])
+            out.append({"l": rng.choice(classes), "links": links, "k": rng.choice([0, 0, rng.range(1, 40), rng.range(FIXED_SPAN, 1 << 30)])})
+        return out
+
+    @staticmethod
+    def _run(case, degiant=False):
+        dg = _degiant if degiant else (lambda c: c)
+        data, parts = {}, []
+        v = member(dg(case["l"]), case["k"])
+        if v is not UNDEF:
+            data["l"] = v
+        for i, (f, args) in enumerate(case["links"]):
+            names_ = []
+            for j, a in enumerate(args):
+                nm_ = f"a{i}_{j}"
+                names_.append(nm_)
+                v = member(dg(a), case["k"] + 1 + i + j if case["k"] else 0)
+                if v is not UNDEF:
+                    data[nm_] = v
+            parts.append(f + (": " + ", ".join(names_) if names_ else ""))
+        src = "{% assign r = l | " + " | ".join(parts) + " %}"
+        env = _env("strict")
+        return observe(lambda: env.from_string(src).render(**data))
+
+    def impl(self, case):
+        giant = case["l"] == "int_giant" or any("int_giant" in a for _, a in case["links"])
+        return mark_digits(self._run(case), giant, lambda: self._run(case, degiant=True))
+
+    def line_obs(self, case, obs):
+        return ["c02.chain", case["l"], case["links"], obs["out"]]
+
+    def tags(self, case, obs):
+        return [f"len{len(case['links'])}", obs["out"].split(":")[0]]
+
+    def shrink_candidates(self, case):
+        for i in range(len(case["links"])):
+            if len(case["links"]) > 1:
+                yield {**case, "links": case["links"][:i] + case["links"][i + 1 :]}
+        if case["k"]:
+            yield {**case, "k": 0}
+
+
 # ---- stream sites ---------------------------------------------------------------------------------------
 SITES = {
     # modelled (Site of Model/ExcFlow.lean) -------------------------------------------------------------
@@ -529,7 +637,52 @@ SITES = {
     "contains_in_dict": ("{% if d contains x %}a{% endif %}", "contains_in_dict"),
     "include_name": ("{% include x %}", "include_name"),
     "cycle_item": ("{% cycle x, 2 %}{% cycle x, 2 %}", "cycle_item"),
-    # oracle only ----------------------------------------------------------------------------------------
+    "assign1": ('{% assign y = x %}', "assign"),
+    "lt_left": ('{% if x < 1 %}a{% endif %}', "lt_left"),
+    "lt_right": ('{% if 1 < x %}a{% endif %}', "lt_right"),
+    "lt_str": ("{% if 'a' < x %}a{% endif %}", "lt_str"),
+    "ge_self": ('{% if x >= x %}a{% endif %}', "ge_self"),
+    "eq_int": ('{% if x == 1 %}a{% endif %}', "eq_int"),
+    "eq_empty": ('{% if x == empty %}a{% endif %}', "eq_empty"),
+    "eq_blank": ('{% if x != blank %}a{% endif %}', "eq_blank"),
+    "contains_list1": ('{% if a contains x %}a{% endif %}', "contains_list"),
+    "contains_empty1": ('{% if x contains empty %}a{% endif %}', "contains_empty"),
+    "truthy1": ('{% if x %}a{% endif %}', "truthy"),
+    "not_": ('{% if not x %}a{% endif %}', "not_"),
+    "idx_list": ('{{ a[x] }}', "idx_list"),
+    "idx_dict": ('{{ d[x] }}', "idx_dict"),
+    "idx_str": ('{{ s[x] }}', "idx_str"),
+    "sub0": ('{{ x[0] }}', "sub0"),
+    "subk": ("{{ x['k'] }}", "subk"),
+    "dot_size": ('{{ x.size }}', "dot_size"),
+    "dot_first": ('{{ x.first }}', "dot_first"),
+    "dot_last": ('{{ x.last }}', "dot_last"),
+    "dot_k": ('{{ x.k }}', "dot_k"),
+    "case_": ("{% case x %}{% when 1 %}a{% when 'a' %}b{% endcase %}", "case_"),
+    "when_": ('{% case 1 %}{% when x %}a{% endcase %}', "when_"),
+    "cycle_group1": ('{% cycle x: 1, 2 %}', "cycle_group"),
+    "render_with1": ("{% render 'p' with x %}", "render_with"),
+    "render_for": ("{% render 'p' for x %}", "render_for"),
+    "render_arg": ("{% render 'p', p: x %}", "render_arg"),
+    "include_with1": ("{% include 'p' with x %}", "include_with"),
+    "include_for": ("{% include 'p' for x %}", "include_for"),
+    "include_arg": ("{% include 'p', p: x %}", "include_arg"),
+    "ifchanged1": ('{% ifchanged %}{{ x }}{% endifchanged %}', "ifchanged"),
+    "with_": ('{% with q: x %}{{ q }}{% endwith %}', "with_"),
+    "macro_arg": ('{% macro m q %}{{ q }}{% endmacro %}{% call m x %}', "macro_arg"),
+    "translate_var1": ('{% translate you: x %}Hi {{ you }}{% endtranslate %}', "translate_var"),
+    "ternary_cond": ('{{ 1 if x else 2 }}', "ternary_cond"),
+    "ternary_val": ('{{ x if x else 2 }}', "ternary_val"),
+    "for_iter1": ('{% for i in x limit: 2 %}{{ i }}{% endfor %}', "for_iter"),
+    "tablerow_iter1": ('{% tablerow i in x limit: 2 %}{{ i }}{% endtablerow %}', "tablerow_iter"),
+    "liquid_echo": ('{% liquid\n echo x %}', "liquid_echo"),
+    "kw_allow_false": ("{{ 'a' | default: 'b', allow_false: x }}", "kw_allow_false"),
+    "kw_t_var": ("{{ 'a%(v)s' | t: v: x }}", "kw_t_var"),
+    "kw_t_count": ("{{ 'a' | t: plural: 'b', count: x }}", "kw_t_count"),
+    "kw_t_plural": ("{{ 'a' | t: plural: x, count: 2 }}", "kw_t_plural"),
+    "kw_unknown": ("{{ 'a' | upcase: q: x }}", "kw_unknown"),
+    "kw_unknown_t": ("{{ 'a' | ngettext: 'b', 2, q: x }}", "kw_unknown_t"),
+    # oracle only: several holes in one template ----------------------------------------------------------
     "assign": ("{% assign y = x %}{% assign z = y | default: x %}", None),
     "range_out": ("{{ (1..x) }}{{ (x..x) }}", None),
     "for_iter": ("{% for i in x limit: 2 %}{{ forloop.index }}{% endfor %}", None),
@@ -575,16 +728,22 @@ class SitesStream(ModelStream):
     parallel = True
     exhaustive = True
 
+    def cell(self, case):
+        return f"{case['site']}|{case['cls']}" if SITES[case["site"]][1] else None
+
     def cases(self, ctx):
         classes = [c for c in CLASS_NAMES]
         out = []
-        for s in SITES:
-            for c in classes:
-                for m in MODES:
-                    out.append({"site": s, "cls": c, "k": 0, "mode": m, "async": False})
-                out.append({"site": s, "cls": c, "k": 0, "mode": "strict", "async": True})
+        for si, s in enumerate(SITES):
+            for ci, c in enumerate(classes):
+                out.append({"site": s, "cls": c, "k": 0, "mode": "strict", "async": False})
+                out.append({"site": s, "cls": c, "k": 0, "mode": "lax", "async": False})
+                if ctx.tier == "thorough" or (si + ci) % 3 == 0:
+                    out.append({"site": s, "cls": c, "k": 0, "mode": "warn", "async": False})
+                if ctx.tier == "thorough" or (si + ci) % 2 == 0:
+                    out.append({"site": s, "cls": c, "k": 0, "mode": "strict", "async": True})
                 # the hand-picked members of the class, then random ones
-                ks = list(range(1, min(len(fixed_members(c)), ctx.scale(4, 64)))) + [FIXED_SPAN + j for j in range(ctx.scale(1, 4))]
+                ks = list(range(1, min(len(fixed_members(c)), ctx.scale(3, 64)))) + [FIXED_SPAN + j for j in range(ctx.scale(1, 4))]
                 for k in ks:
                     out.append({"site": s, "cls": c, "k": k, "mode": MODES[k % 3], "async": k % 2 == 0})
         return out
@@ -873,4 +1032,4 @@ def extra(ctx):
 
 
 def streams(ctx):
-    return [PrimStream(), FilterStream(), PercentStream(), SitesStream(), HandlerStream(), DeepStream(), RenderStream(), ParseStream()]
+    return [PrimStream(), FilterStream(), PercentStream(), ChainStream(), SitesStream(), HandlerStream(), DeepStream(), RenderStream(), ParseStream()]
